@@ -342,7 +342,8 @@ func c09Set(c *core.Ctx, set []string, srv c09server) {
 		// "/v1a": the server's base path ends inside a segment, which is not the server
 		prefixes = []urlT{{"http", "any.host", "/v1"}, {"http", "any.host", ""}, {"https", "h.t", "/v1"}, {"http", "any.host", "/v1a"}}
 	case "absolute":
-		prefixes = []urlT{{"https", "h.t", "/base"}, {"http", "h.t", "/base"}, {"https", "other.t", "/base"}, {"https", "h.t", ""}, {"https", "h.t", "/baseb"}}
+		// (h.t:8443 is another authority than h.t: the declared server has no port)
+		prefixes = []urlT{{"https", "h.t", "/base"}, {"http", "h.t", "/base"}, {"https", "other.t", "/base"}, {"https", "h.t", ""}, {"https", "h.t", "/baseb"}, {"https", "h.t:8443", "/base"}}
 	case "two-servers":
 		prefixes = []urlT{{"https", "h.t", "/base"}, {"http", "alt.t", ""}, {"https", "alt.t", ""}, {"http", "h.t", "/base"}}
 	case "escaped-base":
